@@ -235,7 +235,7 @@ def pending(ctx):
     ctx.ob("R06.6", "reads-both", {"response_buffer", "response_queue"} <= seen, "pending_write() consults both (reads %s)" % sorted(seen), fn.loc(0))
 
 
-def fifo(ctx, rule, field, allowed):
+def fifo(ctx, rule, field, allowed, floor=3):
     facts = ctx.facts
     n = 0
     for fn in facts.fns.values():
@@ -247,4 +247,4 @@ def fifo(ctx, rule, field, allowed):
     for w in field_writers(facts, conn.HC, field):
         if w[3] in ("assign", "assign-inside", "call-result"):
             ctx.fail(rule, "%s|overwritten|%s" % (field, w[0]), "self.%s is overwritten in %s" % (field, w[0]), w[2])
-    ctx.ob(rule, "%s|floor" % field, n >= 3, "%d mutable uses of self.%s inspected (floor 3)" % (n, field))
+    ctx.ob(rule, "%s|floor" % field, n >= floor, "%d mutable uses of self.%s inspected (floor %d)" % (n, field, floor))
